@@ -5,10 +5,10 @@ use poulpy_core::layouts::{
     Base2K, Dnum, Dsize, GGSWInfos, GGSWPreparedFactory, GLWEInfos, LWEInfos, Rank, TorusPrecision, prepared::GGSWPrepared,
 };
 use poulpy_core::layouts::{
-    GGLWEInfos, GGLWEPreparedToRef, GGSW, GGSWLayout, GGSWPreparedToMut, GGSWPreparedToRef, GLWEAutomorphismKeyHelper,
-    GetGaloisElement, LWE,
+    GGLWEInfos, GGLWEPreparedToRef, GGSW, GGSWLayout, GGSWPreparedToMut, GGSWPreparedToRef, GLWE, GLWEAutomorphismKeyHelper,
+    GLWELayout, GetGaloisElement, LWE,
 };
-use poulpy_core::{EncryptionInfos, GLWECopy, GLWEDecrypt, GLWEPacking, LWEFromGLWE};
+use poulpy_core::{EncryptionInfos, GLWECopy, GLWEDecrypt, GLWEKeyswitch, GLWEPacking, LWEFromGLWE};
 
 use poulpy_core::{GGSWEncryptSk, ScratchTakeCore, layouts::GLWESecretPreparedToRef};
 use poulpy_hal::api::{ModuleLogN, ScratchAvailable, ScratchFromBytes};
@@ -394,10 +394,31 @@ where
         // This is also the per-thread region size of the multi-threaded variant: regions handed out by
         // `split_mut` start on aligned addresses, so the size has to be a multiple of the alignment for
         // `threads * fhe_uint_prepare_tmp_bytes` to be enough.
-        (self.circuit_bootstrapping_execute_tmp_bytes(block_size, extension_factor, res_infos, &bdd_infos.cbt_infos())
-            + GGSW::bytes_of_from_infos(res_infos)
-            + LWE::bytes_of_from_infos(bits_infos))
-        .next_multiple_of(poulpy_hal::DEFAULTALIGN)
+        // Per bit, on what is left after the GGSW and the LWE: the bit extraction (`FheUint::get_bit_lwe`), the
+        // circuit bootstrapping, `ggsw_prepare`.
+        let ks_lwe_infos = bdd_infos.ks_lwe_infos();
+        let lvl_get_bit: usize = match bdd_infos.ks_glwe_infos() {
+            Some(ks_glwe_infos) => {
+                let tmp_infos = GLWELayout {
+                    n: bits_infos.n(),
+                    base2k: ks_lwe_infos.base2k(),
+                    k: ks_lwe_infos.max_k().min(bits_infos.max_k()),
+                    rank: ks_lwe_infos.rank_out(),
+                };
+                GLWE::<Vec<u8>>::bytes_of_from_infos(&tmp_infos)
+                    + self
+                        .glwe_keyswitch_tmp_bytes(&tmp_infos, bits_infos, &ks_glwe_infos)
+                        .max(self.lwe_from_glwe_tmp_bytes(bits_infos, &tmp_infos, &ks_lwe_infos))
+            }
+            None => self.lwe_from_glwe_tmp_bytes(bits_infos, bits_infos, &ks_lwe_infos),
+        };
+        let lvl_work: usize = self
+            .circuit_bootstrapping_execute_tmp_bytes(block_size, extension_factor, res_infos, &bdd_infos.cbt_infos())
+            .max(lvl_get_bit)
+            .max(self.ggsw_prepare_tmp_bytes(res_infos));
+
+        (lvl_work + GGSW::bytes_of_from_infos(res_infos) + LWE::bytes_of_from_infos(bits_infos))
+            .next_multiple_of(poulpy_hal::DEFAULTALIGN)
     }
 
     fn fhe_uint_prepare_custom_multi_thread<DM, DB, DK, K, T: UnsignedInteger>(
